@@ -112,18 +112,22 @@ fn main() {
         }
         #[cfg(agdb_verif)]
         "c01" => {
-            let mut o = walrun::Out { cases: vec![], imp: vec![], oracle: vec![], stats: BTreeMap::new(), samples: vec![], nontrivial: 0, programs: 0, snapshots: 0 };
+            let mut o = walrun::Out { cases: vec![], imp: vec![], oracle: vec![], stats: BTreeMap::new(), samples: vec![], nontrivial: 0, programs: 0, snapshots: 0, damaged: 0, traced: 0, in_recovery: 0 };
             let mut r = rng::Rng::new(seed);
+            let guard = arg(&args, "--guard", "0") == "1";
             let max_ops: u64 = arg(&args, "--steps", "14").parse().unwrap();
             for i in 0..n {
                 let mut pr = r.fork();
-                walrun::run_program(&mut pr, &out, i, i % 3 == 2, max_ops, &mut o);
+                walrun::run_program(&mut pr, &out, i, i % 3 == 2, max_ops, guard, &mut o);
             }
             write_lines(&format!("{}/cases.txt", out), &o.cases);
             write_lines(&format!("{}/impl.txt", out), &o.imp);
             write_lines(&format!("{}/oracle.txt", out), &o.oracle);
             o.stats.insert("snapshots".into(), o.snapshots);
-            write_stats(&format!("{}/stats.json", out), &o.stats, o.snapshots, o.nontrivial, &o.samples);
+            o.stats.insert("damaged-logs".into(), o.damaged);
+            o.stats.insert("recovery-call-traces".into(), o.traced);
+            o.stats.insert("cuts-inside-recovery-vs-model".into(), o.in_recovery);
+            write_stats(&format!("{}/stats.json", out), &o.stats, o.snapshots + o.damaged, o.nontrivial, &o.samples);
         }
         #[cfg(agdb_verif)]
         "crash" => {
